@@ -62,6 +62,7 @@ class Tr:
         self.site = 0                 # call-site counter of random draws (source order): the oracle is indexed by it
         self.pre = None               # statements hoisted out of the expression being translated (x.pop())
         self.tmp = 0
+        self.qdiv = False             # translate every a / b as the primitive "qdiv" (exact rational division: float arithmetic read as exact)
         self.fdiv = False             # translate float(a) / b as the primitive "fdiv" (the tie says which rational) instead of an untracked quotient
 
     def fresh(self):
@@ -76,6 +77,9 @@ class Tr:
     def expr(self, e):
         if isinstance(e, ast.Constant):
             return '(EConst %s)' % const_value(e.value)
+        if isinstance(e, ast.Attribute) and e.attr == 'size' and isinstance(e.value, ast.Subscript) and isinstance(e.value.value, ast.Call) \
+                and dotted(e.value.value.func) in ('np.where', 'numpy.where'):
+            return '(ELen %s)' % self.expr(e.value)          # np.where(...)[0].size: how many indices
         if isinstance(e, ast.Attribute) and isinstance(e.value, ast.Name) and e.value.id in self.assigned and e.value.id != 'self':
             return '(ECall %s [%s])' % (cstring('.' + e.attr), self.expr(e.value))     # a field of an object held in a local variable
         d = dotted(e)
@@ -126,6 +130,8 @@ class Tr:
         if isinstance(e, ast.BinOp) and isinstance(e.op, ast.Div) and isinstance(e.left, ast.Call) and isinstance(e.left.func, ast.Name) \
                 and e.left.func.id == 'float' and len(e.left.args) == 1 and self.fdiv:
             return '(ECall "fdiv" [%s; %s])' % (self.expr(e.left.args[0]), self.expr(e.right))     # a float quotient: the tie says which rational
+        if isinstance(e, ast.BinOp) and isinstance(e.op, ast.Div) and self.qdiv:
+            return '(ECall "qdiv" [%s; %s])' % (self.expr(e.left), self.expr(e.right))
         if isinstance(e, ast.BinOp) and isinstance(e.op, ast.Pow):
             return '(ECall "pow" [%s; %s])' % (self.expr(e.left), self.expr(e.right))
         if isinstance(e, ast.BinOp) and isinstance(e.op, ast.Mod) and not (isinstance(e.left, ast.Constant) and isinstance(e.left.value, str)):
@@ -427,6 +433,7 @@ def literal_dicts(path):
 
 
 FDIV = {'g_LZW', 'g_LC', 'g_CWF'}
+QDIV = {'g_sigma', 'g_deltaForm', 'g_delta', 'g_kappa'}
 
 FUNCS = [
     # (Coq name, file, class, function, prefixes under which the data module's names are visible there)
@@ -452,6 +459,10 @@ FUNCS = [
     ('g_Omega_seq', 'localcider/backend/sequence.py', 'Sequence', 'Omega_seq', []),
     ('g_parseSeqFile', 'localcider/backend/seqfileparser.py', 'SequenceFileParser', 'parseSeqFile', []),
     ('g_init_core', 'localcider/backend/sequence.py', 'Sequence', '__init__', [], ('upto', 'self.dmax = dmax')),
+    ('g_sigma', 'localcider/backend/sequence.py', 'Sequence', 'sigma', []),
+    ('g_deltaForm', 'localcider/backend/sequence.py', 'Sequence', 'deltaForm', []),
+    ('g_delta', 'localcider/backend/sequence.py', 'Sequence', 'delta', []),
+    ('g_kappa', 'localcider/backend/sequence.py', 'Sequence', 'kappa', []),
     ('g_linNCPR', 'localcider/backend/sequence.py', 'Sequence', 'linearDistOfNCPR', []),
     ('g_linFCR', 'localcider/backend/sequence.py', 'Sequence', 'linearDistOfFCR', []),
     ('g_linSigma', 'localcider/backend/sequence.py', 'Sequence', 'linearDistOfSigma', []),
@@ -511,6 +522,7 @@ def generate(repo):
                     consts[p + k] = v
             tr = Tr(consts)
             tr.fdiv = name in FDIV
+            tr.qdiv = name in QDIV
             for x in getattr(node, '_preseed', []):
                 if x.startswith('rng:'):
                     tr.rngs.add(x[4:])
